@@ -140,7 +140,7 @@ func lst(l [][]float64, th bool) []float64 {
 }
 
 func init() {
-	S := func(t ScalarType, v float64) Scalar { return NewScalar(t, v) }
+	S := argS // constructor arguments are created through the argument recorder (alias.go)
 	cont := func(lo, hi float64, c, s float64) support {
 		return support{lo: lo, hi: hi, c: c, s: s, loExact: true, hiExact: true, kmax: -1}
 	}
@@ -762,7 +762,7 @@ func init() {
 	// categorical(theta_0..theta_{K-1}): P(k) = theta_k
 	reg(&family{name: "categorical", pnames: []string{"theta0", "theta1", "theta2", "theta3"},
 		build: func(d Dist, t ScalarType) (any, error) {
-			return wrap(sd.NewCategoricalDistribution(AsDenseVector(t, NewDenseFloat64Vector(f64s(d.P)))))
+			return wrap(sd.NewCategoricalDistribution(vecOf(t, f64s(d.P))))
 		},
 		fresh: func() any { return new(sd.CategoricalDistribution) },
 		ref: func(d Dist, x float64) rv {
